@@ -20,6 +20,7 @@ class TrapCode(Enum):
     NO_RESUME = 16
     ERRHAND_IN_HANDLER = 17
     CANNOT_RESUME = 18
+    RETURN_WITHOUT_GOSUB = 19
 
 
 class Trapped(Exception):
